@@ -424,7 +424,13 @@ def _cond_site(ctx, unit, site, zone='UTC'):
             for junk in ['yesterday', '0', 'Thu, 99 Foo 2020 00:00:00 GMT', '', ';', 'Mon, 01 Jan 0000 00:00:00 GMT', '\x00', 'Sun, 13 Sep 2020 12:26:40']:
                 ctx.count('ims_garbage')
                 # an unparseable date is no condition at all; a parseable one without zone is decided by the parser (either way allowed)
+                # - asked twice, right after a valid conditional request that was answered 304 (nothing of that answer sticks to the junk)
+                site.get(n, 'GET', None, http_dates(site.mtime + 5)[0])
+                r0, _ = site.get(n, 'GET', None, junk)
                 r, data = site.get(n, 'GET', None, junk)
+                if r0.code != r.code:
+                    ctx.violation('conditional:answer-to-the-same-request-changes-when-it-is-repeated', f'len={n} IMS={junk!r}: {r0.code} then {r.code}',
+                                  {'unit': {'kind': 'note', 'len': n, 'ims': junk, 'history': 'valid IMS (304), junk, junk again'}})
                 wit = {'unit': {'kind': 'one', 'len': n, 'range': None, 'ims': junk, 'what': 'garbage IMS'}}
                 ctx.case((n, 'GET', None, junk), nontrivial=True)
                 if r.code == 304 and junk in ('yesterday', '', ';', '\x00', 'Thu, 99 Foo 2020 00:00:00 GMT'):
